@@ -19,6 +19,7 @@ import (
 	"github.com/osmosis-labs/osmosis/v31/x/lockup"
 	lockupkeeper "github.com/osmosis-labs/osmosis/v31/x/lockup/keeper"
 	lockuptypes "github.com/osmosis-labs/osmosis/v31/x/lockup/types"
+	tftypes "github.com/osmosis-labs/osmosis/v31/x/tokenfactory/types"
 	sftypes "github.com/osmosis-labs/osmosis/v31/x/superfluid/types"
 	"github.com/osmosis-labs/osmosis/v31/zzverif/chain"
 	"github.com/osmosis-labs/osmosis/v31/zzverif/vk"
@@ -94,6 +95,23 @@ func runC06(c *vk.Ctx) {
 		defer ch.Close()
 		ch.NextBlock(5 * time.Second)
 		owners := ch.Accs[:4]
+		// every third history locks a factory denom whose name merely contains "cl/pool" instead of baz
+		denoms := append([]string{}, denoms...)
+		if i%3 == 1 {
+			cr := ch.Accs[4]
+			if res := ch.Exec(&tftypes.MsgCreateDenom{Sender: cr.Addr.String(), Subdenom: "cl/pool/1"}); res.OK() {
+				fd := "factory/" + cr.Addr.String() + "/cl/pool/1"
+				ok := true
+				for _, o := range owners {
+					if !ch.Exec(&tftypes.MsgMint{Sender: cr.Addr.String(), Amount: sdk.NewCoin(fd, sdkmath.NewIntWithDecimal(1, 40)), MintToAddress: o.Addr.String()}).OK() {
+						ok = false
+					}
+				}
+				if ok {
+					denoms[2] = fd
+				}
+			}
+		}
 		q := lockupkeeper.NewQuerier(*ch.App.LockupKeeper)
 		modAddr := authtypes.NewModuleAddress(lockuptypes.ModuleName)
 		realSweeps := i%10 == 9
